@@ -1,5 +1,6 @@
 import QProofs.C04
 import QProofs.C04Ineq
+import QGen.C04
 /-!
 # C04 — equality / inequality projections are nearest-point projections: property theorems
 
@@ -219,6 +220,32 @@ theorem mprocess_projEq_idem (T : Ten K m n n) (hm : 0 < m) :
 
 /-- C04.3 (MProcess) flag False: variable level is the object level. -/
 theorem mprocess_var_eq_obj_F (T : Ten K m n n) : MProcess.projEqVarF T = MProcess.projEq T := rfl
+
+/-! ### tie to the source: definitions regenerated from state.py / gate.py on every run (QGen.C04) equal the hand model -/
+
+/-- tie to the source (State): the element assignments translated from state.py on this run are the model's projections. -/
+theorem gen_state_eq (dim : Nat) (s : K) (flag : Bool) (v : Vec K n) :
+    QGen.C04.stateEqObj dim s v = State.projEq s v ∧ QGen.C04.stateEqVar dim s flag v = State.projEqVar s flag v :=
+  ⟨rfl, rfl⟩
+
+/-- tie to the source (Gate): the element / slice assignments translated from gate.py on this run
+(`hs[0][0] = 1; hs[0][1:] = 0` and `new_var[0] = 1; new_var[1 : dim ** 2] = 0`) are the model's projections with `n = dim²`. -/
+theorem gen_gate_eq (dim : Nat) (flag : Bool) (hs : Mat K n n) (var : Vec K N) :
+    QGen.C04.gateEqObj dim hs = Gate.projEq hs ∧ QGen.C04.gateEqVar dim flag var = Gate.projEqVar (dim * dim) flag var := by
+  constructor
+  · apply Mat.ext'; intro a b
+    simp only [QGen.C04.gateEqObj, Mat.get_ofFn, Gate.projEq_get, e0]
+    by_cases ha : a.val = 0 <;> by_cases hb : b.val = 0 <;> simp [ha, hb] <;> omega
+  · unfold QGen.C04.gateEqVar Gate.projEqVar
+    cases flag
+    · simp only [Bool.false_eq_true, if_false]
+      apply Vec.ext'; intro k
+      simp only [Vec.get_ofFn, pow_two]
+      by_cases hk : k.val = 0
+      · simp [hk]
+      · have : 1 ≤ k.val := Nat.one_le_iff_ne_zero.2 hk
+        simp [hk, this]
+    · rfl
 
 /-- C04.4 purity (repaired defect D5): in the model the caller's array after
 `MProcess.calc_proj_eq_constraint_with_var(c_sys, var, on_para_eq_constraint)` is the array before the call, for both
@@ -506,6 +533,109 @@ example : OrthoN (basisM (Vector.ofFn fun _ => Mat.ofFn fun _ _ => (1 : ℂ) : V
   · intro a
     ext i j
     simp [basisM, Mat.toM, Matrix.conjTranspose_apply]
+
+open QM.Psd in
+/-- the basis the code actually uses for a qubit (`get_normalized_pauli_basis`, σ_a/√2 over ℂ) satisfies the hypotheses of the
+complete-basis theorems: orthonormal … -/
+theorem pauli_orthoN : OrthoN (basisM pauliB) := by
+  intro a b
+  rw [trace_conj_mul']
+  simp only [pauliB_apply, star_mul', star_rs2, Fin.sum_univ_two]
+  have h := rs2_mul_self
+  have e : ∀ x y : ℂ, rs2 * x * (rs2 * y) = (1 / 2) * (x * y) := by
+    intro x y; rw [← h]; ring
+  simp only [e]
+  fin_cases a <;> fin_cases b <;> simp [sigma] <;> norm_num
+
+open QM.Psd in
+/-- … and Hermitian (4 = 2² elements by its type). -/
+theorem pauli_hermB : HermB pauliB := by
+  intro a
+  ext i j
+  rw [Matrix.conjTranspose_apply, pauliB_apply, pauliB_apply, star_mul', star_rs2]
+  fin_cases a <;> fin_cases i <;> fin_cases j <;> simp [sigma, mul_comm]
+
+-- non-vacuity of the complete-basis theorems on the real qubit basis: the spec theorem instantiated at the Pauli basis
+open QM.Psd in
+example (x : Vec ℝ (2 * 2)) (lam : Vec ℝ 2) (U : Mat ℂ 2 2) (hU : U.toMᴴ * U.toM = 1)
+    (hA : matOfVec (pauliB : Vector (Mat ℂ 2 2) (2 * 2)) x = rebuild U lam) :
+    ∃ p, projIneqCore (pauliB : Vector (Mat ℂ 2 2) (2 * 2)) (0 : ℝ) lam U = .ok p ∧ (matOfVec pauliB p).toM.PosSemidef ∧
+      ∀ y, (matOfVec pauliB y).toM.PosSemidef → ip1 (x.sub p) (y.sub p) ≤ 0 ∧ sqd1 x p ≤ sqd1 x y :=
+  projIneqCore_spec_partial pauliB pauli_orthoN pauli_hermB x lam U hU hA
+
+/-- C04 (finding D13) the imaginary-part guard of `truncate_hs` as coded: the routine accepts exactly when every
+coordinate has `|im| < eps` or `im = 0`; otherwise it raises `ValueError` (model: `Err.imag`). The threshold is
+ABSOLUTE (`eps` does not scale with the input). -/
+theorem truncate_ok_iff (eps : ℝ) (v : Vec ℂ n) :
+    (∃ p, truncate eps v = .ok p) ↔ ∀ a, |(v.get a).im| < eps ∨ (v.get a).im = 0 := by
+  unfold truncate
+  constructor
+  · intro ⟨p, h⟩
+    split at h
+    · cases h
+    · rename_i hc
+      intro a
+      by_contra hcon
+      simp only [not_or] at hcon
+      apply hc
+      simp only [List.any_eq_true, List.mem_finRange, true_and, decide_eq_true_eq]
+      exact ⟨a, by rw [im_def, rabs_eq_abs]; exact hcon.1, by rw [im_def]; exact hcon.2⟩
+  · intro h
+    rw [if_neg]
+    · exact ⟨_, rfl⟩
+    · simp only [List.any_eq_true, List.mem_finRange, true_and, decide_eq_true_eq, not_exists, not_and]
+      intro a ha
+      rcases h a with h1 | h1
+      · exact absurd (by rw [im_def, rabs_eq_abs]; exact h1) ha
+      · rw [im_def]; simpa using h1
+
+theorem truncate_raises_iff (eps : ℝ) (v : Vec ℂ n) :
+    truncate eps v = .error .imag ↔ ∃ a, ¬ |(v.get a).im| < eps ∧ (v.get a).im ≠ 0 := by
+  have h := truncate_ok_iff eps v
+  constructor
+  · intro he
+    by_contra hcon
+    simp only [not_exists, not_and, not_not] at hcon
+    obtain ⟨p, hp⟩ := h.2 (fun a => by
+      by_cases h1 : |(v.get a).im| < eps
+      · exact Or.inl h1
+      · exact Or.inr (hcon a h1))
+    rw [he] at hp; cases hp
+  · intro ⟨a, h1, h2⟩
+    cases ht : truncate eps v with
+    | error e => cases e; rfl
+    | ok p =>
+      rcases h.1 ⟨p, ht⟩ a with h3 | h3
+      · exact absurd h3 h1
+      · exact absurd h3 h2
+
+/-- C04 (D13) effect of a rounding perturbation of the coefficient vector: if the exact coefficients `v` are real and the
+computed ones `w` deviate by less than `eta` in every coordinate (real and imaginary part), then
+`eta ≤ eps` ⇒ the routine accepts and every output coordinate is within `eta + eps` of the exact projection coordinate;
+while any coordinate with `|im w| ≥ eps` makes it raise — however small that is relative to the size of the input. -/
+theorem truncate_perturbed (eps eta : ℝ) (v w : Vec ℂ n) (hv : ∀ a, (v.get a).im = 0)
+    (hre : ∀ a, |(w.get a).re - (v.get a).re| < eta) (him : ∀ a, |(w.get a).im - (v.get a).im| < eta)
+    (hle : eta ≤ eps) :
+    ∃ p, truncate eps w = .ok p ∧ ∀ a, |p.get a - (v.get a).re| < eta + eps := by
+  have hacc : ∀ a, |(w.get a).im| < eps ∨ (w.get a).im = 0 := by
+    intro a; left
+    have := him a; rw [hv a, sub_zero] at this; linarith
+  obtain ⟨p, hp⟩ := (truncate_ok_iff eps w).2 hacc
+  refine ⟨p, hp, fun a => ?_⟩
+  have heta : 0 < eta := lt_of_le_of_lt (abs_nonneg _) (hre a)
+  rcases truncate_close eps w p hp a with h | ⟨h, hlt⟩
+  · rw [h]; have := hre a; linarith
+  · rw [h, zero_sub, abs_neg]
+    rw [rabs_eq_abs] at hlt
+    have h1 := hre a
+    have : |(v.get a).re| ≤ |(w.get a).re| + |(w.get a).re - (v.get a).re| := by
+      have := abs_sub_abs_le_abs_sub (v.get a).re (w.get a).re
+      rw [abs_sub_comm (v.get a).re] at this; linarith
+    linarith
+
+-- non-vacuity of the guard theorems: a coordinate with imaginary part 1 and threshold 1/10 raises
+example : truncate (1/10 : ℝ) (Vec.ofFn fun _ : Fin 1 => Complex.I) = .error .imag :=
+  (truncate_raises_iff _ _).2 ⟨0, by simp; norm_num, by simp⟩
 
 /-- C04.3 the variable-level State routine with the parametrised constraint is the object-level result with the
 first coordinate dropped (definitional). -/
